@@ -510,10 +510,10 @@ def run(ctx: Ctx) -> None:
     g = Grammar.load(ctx.repo)
     ctx.analysed["grammar_rules"] = len(g.rules)
     levels = rule_r1(ctx, g)
-    rule_r2(ctx, g)
-    rule_r3(ctx, g, levels)
-    rule_r4(ctx)
-    rule_r5(ctx)
-    rule_r6(ctx)
+    ctx.attempt(rule_r2, ctx, g)
+    ctx.attempt(rule_r3, ctx, g, levels)
+    ctx.attempt(rule_r4, ctx)
+    ctx.attempt(rule_r5, ctx)
+    ctx.attempt(rule_r6, ctx)
     ctx.assume("fractions.Fraction and the operator module are exact (trusted stdlib); a fractional power may yield a float (outside the property's quantifier)")
     ctx.undecided("the arithmetic of Fraction, the values of string escapes, set algebra values")
